@@ -881,9 +881,25 @@ def simple_nodes(run, model, rule="C06.node-semantics"):
         run.check(ok, rule, fi.qual, "every element of node.elts re-computed, in order", "the elements of the display are not re-computed one for one from node.elts", fi.loc())
     fi = model.method("_recompute", "Visitor", "visit_Dict", required=False)
     if fi is not None:
-        src = src_of(fi.node)
-        ok = "zip(node.keys, node.values)" in src and "self.visit(node=key)" in src.replace("self.visit(key)", "self.visit(node=key)") and "self.visit(node=val)" in src.replace("self.visit(val)", "self.visit(node=val)")
-        run.check(ok, rule, fi.qual, "keys paired with values in order", "the dictionary display is not re-computed from zip(node.keys, node.values)", fi.loc())
+        flow = get_flow(model, fi)
+        run.saw(flow)
+        ZIP = ("call", ("builtin", "zip"), (("attr", NODE, "keys"), ("attr", NODE, "values")), ())
+        ok = False
+        for h in flow.cfg.nodes:
+            if h.kind != "next":
+                continue
+            its = [strip_sites(flow.term(p.ast, p)) for k, p in h.pred if p.kind == "iter" and p.stmt is h.stmt]
+            if its != [ZIP]:
+                continue
+            el = ("elem", ZIP)
+            start = [t for k, t in h.succ if k == "T"][0]
+            ps = tables.paths(flow, start, {h.id}, stop_at_loops=True)
+            done = [p for p in ps if not (p.outcome and p.outcome[0] in ("raise", "assert"))]
+            ok = bool(done) and all(
+                any(tt[0] == "idx" and visit_arg(strip_sites(tt[2])) == ("idx", el, ("const", "0")) and visit_arg(strip_sites(vt)) == ("idx", el, ("const", "1")) for tt, vt, n in p.stores)
+                for p in done
+            )
+        run.check(ok, rule, fi.qual, "keys paired with values in order", "the dictionary display is not re-computed as {visit(key): visit(value)} over zip(node.keys, node.values)", fi.loc())
 
 
 def lambda_location(run, model, rule="C07.text"):
@@ -1082,4 +1098,41 @@ def dispatch_closed(run, model, rule="C07.dispatch-closed"):
             run.check(ok, rule, construct, "the positional list is extended with the re-computed iterable", "a star argument is not unpacked into the positional arguments of the re-computed call", fi.loc(h), None, "star-known")
         else:
             run.check(not ext, rule, construct, "a starred value that is not known is not unpacked (the call is left out)", "the placeholder standing for an unknown value is unpacked like an iterable (TypeError inside message generation)", fi.loc(h), None, "star-unknown")
+    return count
+
+
+def truth_protocol(run, model, rule="C07.truth-protocol"):
+    """The library's own stand-in values obey the truth protocol: a ``__bool__`` returns a real ``bool``.
+
+    The re-computed value of a failed ``all(<generator>)`` is a stand-in object; it is truth-tested whenever the
+    quantifier is an operand of ``and`` / ``or`` / ``not`` or a conditional.  ``__bool__`` returning the element
+    itself (``0``, ``''``, ``None`` ...) makes that test raise ``TypeError: __bool__ should return bool`` and the
+    violation is replaced by an internal error.
+    """
+    count = 0
+    for fi in model.functions.values():
+        if fi.cls is None or fi.parent is not None or fi.name != "__bool__" or not fi.live:
+            continue
+        count += 1
+        flow = get_flow(model, fi)
+        run.saw(flow)
+        bad = None
+        rets = [n for n in flow.cfg.nodes if n.kind == "return"]
+        if not rets:
+            bad = (fi.node, "no value is returned")
+        for r in rets:
+            if r.ast is None:
+                bad = (r.stmt, "returns None")
+                continue
+            t = strip_sites(flow.term(r.ast, r))
+            alts = t[1] if t[0] == "phi" else (t,)
+            for a in alts:
+                is_bool = (
+                    a in (("const", "True"), ("const", "False"))
+                    or (a[0] == "call" and a[1] == ("builtin", "bool"))
+                    or (a[0] == "op" and (a[1] == "Not" or (a[1].startswith("cmp:") and all(p in ("Is", "IsNot", "In", "NotIn") for p in a[1][4:].split("/")))))
+                )
+                if not is_bool:
+                    bad = (r.stmt, "`%s` is returned as the truth value without bool(...): for a falsy value that is not False (0, '', None, an empty container) the truth test of the stand-in raises TypeError, e.g. `all(x for x in xs) and len(xs) > 0` with xs=[0]" % show(a, 50))
+        run.check(bad is None, rule, "%s.%s.__bool__" % (fi.module.name, fi.cls.name), "returns a bool by construction", bad[1] if bad else "", fi.loc(bad[0]) if bad else fi.loc(), None, first_line(bad[0]) if bad else None)
     return count
